@@ -152,6 +152,74 @@ Definition run_round (reset : bool) (hn : list (positive * info))
 Definition run_rounds (reset : bool) (hn : list (positive * info)) (rds : list round) : list (Z * option positive) :=
   snd (fold_left (run_round reset hn) rds ([], [])).
 
+(* ---------- adjustNetworkTopologySpec (session.go): tier limits given by NAME ---------- *)
+(* A limit is a number or a tier name; "tier<n>" is name n.  The name table of the session
+   (HyperNodeTierNameMap) maps the tier names carried by the HyperNodes to their tiers: in the
+   trace clusters every HyperNode of tier t carries the name "tier<t>".  A name that no
+   HyperNode carries cannot be translated: the failure is logged and the spec stays without a
+   numeric limit (IsHardTopologyMode = false).  The job's spec is translated first, then the
+   spec of each of its sub-jobs — each on its own.
+   [skip = true] is the seeded mutant C14-r5-2: after a job-level failure the sub-jobs are not
+   looked at (kept as a _refuted witness for the theorem below). *)
+Inductive tier_ref := TNum (t : Z) | TName (n : Z).
+
+Definition name_table (s : st) : list Z := map fst (s_tier s).
+
+Definition translate (table : list Z) (r : tier_ref) : option Z :=
+  match r with
+  | TNum t => Some t
+  | TName n => if existsb (Z.eqb n) table then Some n else None
+  end.
+
+Definition untranslated (r : tier_ref) : option Z :=
+  match r with TNum t => Some t | TName _ => None end.
+
+Definition adjust (skip : bool) (table : list Z) (job : option tier_ref) (subs : list (Z * option tier_ref))
+  : option Z * list (Z * option Z) :=
+  let job_failed := match job with
+                    | Some r => match translate table r with None => true | Some _ => false end
+                    | None => false end in
+  (match job with Some r => translate table r | None => None end,
+   map (fun rs => (fst rs, match snd rs with
+                           | None => None
+                           | Some r => if skip && job_failed then untranslated r else translate table r
+                           end)) subs).
+
+(* the limit specs of a trace: job level (absent when only the sub-group policy carries the
+   topology) and per sub-job (its own policy limit; a sub-job of a policy without topology has
+   none; the default sub-job of a job without policy carries the job's spec) *)
+Definition mk_ref (mode limit : Z) : tier_ref :=
+  if Z.eqb mode 0 then TNum limit else if Z.eqb mode 1 then TName limit else TName 0.
+
+Definition trace_limits (policy limit sub_limit job_mode sub_mode : Z) (roles : list Z)
+  : option tier_ref * list (Z * option tier_ref) :=
+  let jr := if Z.eqb policy 3 then None else Some (mk_ref job_mode limit) in
+  (jr, map (fun r => (r, if Z.leb 2 policy then Some (mk_ref sub_mode sub_limit)
+                         else if Z.eqb policy 0 then jr else None)) roles).
+
+(* a sub-group's valid tier name is translated whatever the job-level spec is *)
+Theorem adjust_sub_valid_name : forall table job subs role n,
+  In (role, Some (TName n)) subs -> existsb (Z.eqb n) table = true ->
+  In (role, Some n) (snd (adjust false table job subs)).
+Proof.
+  intros table job subs role n Hin Hn. unfold adjust. cbn [snd].
+  apply in_map_iff. exists (role, Some (TName n)). split; [|exact Hin].
+  cbn [fst snd andb translate]. now rewrite Hn.
+Qed.
+
+(* and every sub-job's limit is what its own spec says, independently of the job's *)
+Theorem adjust_sub_independent : forall table job job' subs,
+  snd (adjust false table job subs) = snd (adjust false table job' subs).
+Proof. reflexivity. Qed.
+
+(* the mutant (sub-jobs skipped after a job-level failure) loses a valid sub-group limit *)
+Lemma adjust_skip_refuted :
+  let table := [1; 2] in
+  let subs := [(1, Some (TName 1))] in
+  snd (adjust true table (Some (TName 0)) subs) = [(1, None)] /\
+  snd (adjust false table (Some (TName 0)) subs) = [(1, Some 1)].
+Proof. vm_compute. split; reflexivity. Qed.
+
 (* ================= specification ================= *)
 (* the recovered HyperNode of a sub-job holds every node of an allocated-status task and
    no HyperNode of a lower tier does *)
